@@ -831,7 +831,7 @@ func search(c *core.Ctx, cfg Config) {
 	// every instance builds real brokers whose routers, caches and pollers cannot be released:
 	// the expansion runs in worker processes that are replaced after a few dozen requests
 	cj, _ := json.Marshal(cfg)
-	res, err := xstate.RunProcs(spec, xstate.ProcOpts{CheckID: "C05", Tier: c.Tier, Args: []string{"xstate", string(cj)}, Procs: core.NumWorkers(), Recycle: 40})
+	res, err := xstate.RunProcs(spec, xstate.ProcOpts{CheckID: "C05", Tier: c.Tier, Args: []string{"xstate", string(cj)}, Procs: core.NumWorkers(), Recycle: 40, Deadline: c.Deadline})
 	if err != nil {
 		core.HarnessFailure("C05 %s: %v", cfg.Name, err)
 	}
